@@ -8,6 +8,8 @@ import (
 	"testing"
 	"time"
 
+	"example.com/scion-time/net/nts"
+
 	"verif.local/sim/simcore"
 	"verif.local/sim/simnet"
 )
@@ -18,7 +20,9 @@ import (
 // monitor with its own RFC 8915 field walker judges every request and every
 // reply; the pool is tracked from the wire and cross-checked with the client.
 
-const c11MaxLen = 1024 // the statement's maximum NTS packet size
+// c11MaxLen is "the maximum NTS packet size" of the statement: the limit the implementation
+// declares for itself.
+const c11MaxLen = nts.MaxPacketLen
 
 func c11World(t *testing.T, r *simcore.Run) any {
 	tp := r.Tape
@@ -37,12 +41,9 @@ func c11World(t *testing.T, r *simcore.Run) any {
 	dropResp := make([]bool, nattempts)
 	lossy := tp.Bool(3, 4, "lossy")
 	maxBurst := 1 + tp.Intn(10, "maxburst")
-	avoidLevel1 := !tp.Bool(1, 5, "allow-level-1") // known finding F13 lives at pool level 1
-	if tr.name() == "scion" {
-		// (over SCION the F13 panic strikes on the client's own measurement goroutine and takes
-		// the worker process down; pool level 1 is left to the IP runs)
-		avoidLevel1 = true
-	}
+	// (until fix: commit "make the NTS packet buffer large enough for eight cookies" pool level 1
+	// was known finding F13; bursts that reach it are now drawn like any other)
+	avoidLevel1 := !tp.Bool(4, 5, "allow-level-1")
 	if lossy {
 		for i := 0; i < nattempts; {
 			if tp.Bool(1, 3, "burst?") {
@@ -68,6 +69,11 @@ func c11World(t *testing.T, r *simcore.Run) any {
 	gaps := tp.Bool(1, 3, "daygaps")
 	replays := tp.Bool(1, 2, "replays")
 	restarts := tp.Bool(1, 3, "restarts")
+	// the server process is restarted now and then: its keys are gone, every cookie the client
+	// holds is worthless, and the client has to find its way back (drain its pool, re-key)
+	srvRestarts := tp.Bool(1, 4, "srvrestarts")
+	staleUntilRekey := false // the client may still hold cookies of the server's previous life
+	cleanSinceRestart := 0   // attempts since then in which nothing was lost
 	var pastResponses [][]byte
 	cur := -1 // attempt index
 	seenCookies := map[string]int{}
@@ -231,13 +237,6 @@ func c11World(t *testing.T, r *simcore.Run) any {
 				return
 			}
 			cur = i
-			if tr.name() == "scion" && tr.fetcher().VerifPoolLen() == 1 {
-				// (expired cookies can take the pool down to level 1 whatever the loss script says;
-				// over SCION the F13 panic there would kill the worker process: the client is
-				// "restarted" instead - it forgets its session and re-keys)
-				tr.fetcher().VerifForget()
-				r.Fault("client-restart")
-			}
 			// (more often after a long idle gap: the host was down, or the service is started again;
 			// the key exchange that follows then meets a server whose keys have rotated meanwhile)
 			if (restarts && tp.Bool(1, 20, "restart?")) || (gaps && gap >= time.Hour && tp.Bool(1, 2, "restart-after-gap?")) {
@@ -245,6 +244,11 @@ func c11World(t *testing.T, r *simcore.Run) any {
 				// durable state), the next attempt performs a complete key exchange
 				tr.fetcher().VerifForget()
 				r.Fault("client-restart")
+			}
+			if srvRestarts && tp.Bool(1, 25, "srvrestart?") {
+				tr.provider().VerifRestart()
+				staleUntilRekey, cleanSinceRestart = true, 0
+				r.Fault("server-restart")
 			}
 			before := tr.fetcher().VerifPoolLen()
 			level = before
@@ -255,7 +259,9 @@ func c11World(t *testing.T, r *simcore.Run) any {
 			lastReq, lastReply, replyCookies = nil, nil, 0
 			err := tr.measure(300 * time.Millisecond)
 			after := tr.fetcher().VerifPoolLen()
+			stale := staleUntilRekey
 			if tr.keyExchanges() != ke0 {
+				staleUntilRekey = false
 				rekeys++
 				r.Probe("re-keyed")
 				// the cookies of a key exchange are sealed under the provider's current key as well
@@ -296,8 +302,23 @@ func c11World(t *testing.T, r *simcore.Run) any {
 						return
 					}
 				}
+				if stale {
+					r.Probe("recovered-after-server-restart")
+				}
 			} else {
 				failed++
+				if stale && !dropReq[i] && !dropResp[i] {
+					// bounded liveness: eight worthless cookies at most, then a key exchange
+					cleanSinceRestart++
+					if cleanSinceRestart > 10 && !gaps {
+						r.Fail("C11", "recovery/after-server-restart", "%s: %d attempts without loss after the server's restart and the client is still failing", line, cleanSinceRestart)
+						return
+					}
+					continue
+				}
+				if stale {
+					continue
+				}
 				if !dropReq[i] && !dropResp[i] && lastReq != nil && lastReply == nil && !gaps {
 					r.Fail("C11", "server/no-reply", "%s: an authenticated request that was not lost got no reply", line)
 					return
